@@ -13,7 +13,12 @@ package main
 //   x token rotation on / off
 //   x the life of a registration: create, read, read again, update (same layout), read, update (to the
 //     next layout), read, read with a wrong token, an update refused for its metadata, read, delete with
-//     a wrong token, read by another client's token, delete, read after delete
+//     a wrong token, read by another client's token, delete, read after delete; and the life of a
+//     read-modify-write client (RFC 7592): updates whose bodies carry members named like the response's
+//     own members (client_id, client_secret, registration_access_token, registration_client_uri,
+//     client_secret_expires_at, client_id_issued_at) with the client's real current credentials, with
+//     the first credentials ever issued, with another client's credentials and with chosen strings,
+//     each followed by a read (and once by a plain update and a read)
 //
 // and every response goes through the scanner of c09Dcr.do: hashes of the store, secrets and
 // registration tokens minted earlier (a secret may appear in the ONE response that minted it), any
@@ -208,6 +213,90 @@ func c09DcrMatrix(ctx *RunCtx, s *c09Scan) {
 			read(a, a.regToken, a)
 			update(a, meta(cl, "A again"))
 			read(a, a.regToken, a)
+			// the read-modify-write client of RFC 7592: it PUTs back the document it received, so the body
+			// carries members named like the response's own members.  real: the client's CURRENT credentials
+			// (the still valid registration token, the secret an earlier response issued); otherwise another
+			// client's credentials and strings the client chose.  Whatever the body said, the responses that
+			// follow - the update itself, rotating or not, and every read - show a secret / a registration
+			// token only if that very response minted it.
+			reserved := func(m map[string]any, real bool, variant int) map[string]any {
+				if real {
+					m["client_id"], m["registration_access_token"] = a.id, a.regToken
+					m["registration_client_uri"] = issuer + "/register/" + a.id
+					m["client_secret_expires_at"], m["client_id_issued_at"] = 0, 1700000000
+					if a.secret != "" {
+						m["client_secret"] = a.secret
+					} else if len(a.secrets) > 0 {
+						m["client_secret"] = a.secrets[len(a.secrets)-1]
+					} else {
+						m["client_secret"] = "no-secret-was-ever-issued-0123456789"
+					}
+					if variant == 1 {
+						// the document of the registration response: the first secret and token ever issued
+						m["registration_access_token"] = a.regTokens[0]
+						if len(a.secrets) > 0 {
+							m["client_secret"] = a.secrets[0]
+						}
+					}
+					return m
+				}
+				m["client_id"], m["registration_access_token"] = other.id, other.regToken
+				m["registration_client_uri"] = "https://evil.example/register/" + a.id
+				m["client_secret_expires_at"], m["client_id_issued_at"] = "never", nil
+				m["client_secret"] = "a-secret-chosen-by-the-client-0123456789"
+				if other.secret != "" && variant == 0 {
+					m["client_secret"] = other.secret
+				}
+				return m
+			}
+			noCred := func(where string, m map[string]any) {
+				for _, k := range []string{"client_secret", "registration_access_token"} {
+					if v, ok := m[k]; ok {
+						s.fail("register", map[string]string{"client_secret": "client-secret", "registration_access_token": "registration-token"}[k],
+							fmt.Sprintf("%s shows a %s member (%v) although it neither creates nor rotates one: a member of an earlier request body came back", where, k, truncate(fmt.Sprint(v), 20)),
+							map[string]any{"request": where, "response": m})
+					}
+				}
+			}
+			readDoc := func(where string) {
+				code, m := d.do("GET", "/register/"+a.id, nil, a.regToken, a, rotation, nil)
+				if code == 200 {
+					noCred("GET after "+where, m)
+				}
+				s.stats["matrix/dcr/read-modify-write: read after "+where]++
+			}
+			for variant, where := range []string{"a PUT of the client's current credentials under the reserved names", "a PUT of the first credentials issued under the reserved names"} {
+				body := reserved(meta(cl, "A read-modify-write"), true, variant)
+				sent := fmt.Sprint(body["client_secret"])
+				code, m := d.do("PUT", "/register/"+a.id, body, a.regToken, a, rotation, nil)
+				if code == 200 {
+					if v, _ := m["client_secret"].(string); v != "" && v == sent {
+						s.fail("register", "client-secret", "an update answered with the client_secret member of its own request body", map[string]any{"request": where, "response": m})
+					}
+					if _, ok := m["registration_access_token"]; ok && !rotation {
+						s.fail("register", "registration-token", "an update without rotation shows a registration_access_token member", map[string]any{"request": where, "response": m})
+					}
+					learn(a, m)
+				}
+				readDoc(where)
+				// a non-rotating / rotating update that follows, with a plain body: the custom attributes are replaced
+				if variant == 0 {
+					update(a, meta(cl, "A plain again"))
+					readDoc("a plain update that followed " + where)
+				}
+			}
+			for variant := 0; variant < 2; variant++ {
+				where := "a PUT of another client's credentials / chosen strings under the reserved names"
+				code, m := d.do("PUT", "/register/"+a.id, reserved(meta(cl, "A with foreign members"), false, variant), a.regToken, a, rotation, nil)
+				if code == 200 {
+					if v, _ := m["client_secret"].(string); v == "a-secret-chosen-by-the-client-0123456789" {
+						s.fail("register", "client-secret", "an update answered with the client_secret member of its own request body", map[string]any{"request": where, "response": m})
+					}
+					learn(a, m)
+				}
+				readDoc(where)
+			}
+			s.stats[fmt.Sprintf("matrix/dcr/read-modify-write | method %s|%s|%s | rotation=%v", cl.T, cl.I, cl.R, rotation)]++
 			next := cls[(ci+len(cls)/2+1)%len(cls)]
 			update(a, meta(next, "A with other methods"))
 			read(a, a.regToken, a)
